@@ -100,7 +100,8 @@ ThrottleInternal::receive_quota(uint32_t quota, uint32_t fraction) {
     // E.g. we might want to spread it over the next few slaves, especially if we have a very large
     // number.
 
-    uint32_t need = std::min<uint32_t>(quota, static_cast<uint64_t>(fraction) * (*m_next_slave)->max_rate() >> fraction_bits);
+    // A slave with max rate 0 is unlimited, it shares its parent's quota.
+    uint32_t need = (*m_next_slave)->max_rate() == 0 ? quota : std::min<uint32_t>(quota, static_cast<uint64_t>(fraction) * (*m_next_slave)->max_rate() >> fraction_bits);
 
     if (need > m_unused_quota)
       break;
@@ -111,7 +112,7 @@ ThrottleInternal::receive_quota(uint32_t quota, uint32_t fraction) {
     ++m_next_slave;
   }
 
-  uint32_t need = std::min<uint32_t>(quota, static_cast<uint64_t>(fraction) * m_maxRate >> fraction_bits);
+  uint32_t need = m_maxRate == 0 ? quota : std::min<uint32_t>(quota, static_cast<uint64_t>(fraction) * m_maxRate >> fraction_bits);
 
   if (m_next_slave == m_slave_list.end() && need <= m_unused_quota) {
     m_unused_quota -= m_throttleList->update_quota(need);
